@@ -124,6 +124,18 @@ func main() {
 	if len(problems) > 0 {
 		status = 1
 	}
+	// constants and decision functions of decimal.go (facts.go): written only when complete,
+	// so a stale Facts.lean is never mistaken for a fresh one
+	facts, fproblems := genFacts(p)
+	for _, pr := range fproblems {
+		fmt.Println("gen facts: FAILED:", pr)
+	}
+	if len(fproblems) > 0 {
+		status = 1
+		os.Remove(filepath.Join(*out, "Facts.lean"))
+	} else {
+		write("Facts.lean", facts)
+	}
 	if asm, err := genAsm(*repo); err != nil {
 		fmt.Println("asm:", err)
 		status = 1
